@@ -625,6 +625,41 @@ theorem tally_consumes_votes (stk : Staking) (pid : Nat) (s s' : State) (h : tal
         refine ⟨?_, fun v => mem_votesNot⟩
         simp [votesOf, votesNot, List.filter_filter]
 
+/-- **no stake is counted twice**: the shares of every delegation held by an account that voted are deducted from the
+validator before the validator's own vote is weighted (regenerated: `val.DelegatorDeductions = ….Add(delegation.GetShares())`
+in the first loop, `DelegatorShares.Sub(DelegatorDeductions)` in the second), a delegation counts only towards a bonded
+validator, a validator that did not vote adds nothing, and each voter's options are weighted with `Mul` -/
+theorem tally_counts_each_stake_once (votes : List Vote) (dels : List Del) (v : Val) :
+    deductions votes dels v.op = sumShares (dels.filter (fun d => d.val == v.op && votes.any (fun x => x.voter == d.who))) ∧
+    valPower v (deductions votes dels v.op) =
+      decQuo ((v.shares - sumShares (dels.filter (fun d => d.val == v.op && votes.any (fun x => x.voter == d.who)))) * v.bonded) v.shares ∧
+    (∀ shares, delPower v shares = decQuo (shares * v.bonded) v.shares) ∧
+    (∀ n r, voteOf votes v.op = none → valLoop votes dels (v :: r) n = valLoop votes dels r n) := by
+  have h1 : tallyDeductsDelegatorShares = true := rfl
+  have h2 : tallyValidatorPower = "sharesAfterDeductions.MulInt(val.BondedTokens).Quo(val.DelegatorShares)" := rfl
+  have h3 : tallySharesAfterDeductions = "val.DelegatorShares.Sub(val.DelegatorDeductions)" := rfl
+  have h4 : tallyDelegatorPower = "delegation.GetShares().MulInt(val.BondedTokens).Quo(val.DelegatorShares)" := rfl
+  have h5 : tallySkipsSilentValidators = true := rfl
+  have h6 : tallyRecordsValidatorVote = true := rfl
+  refine ⟨by simp [deductions, h1], by simp [valPower, deductions, h1, h2, h3], fun shares => by simp [delPower, h4], ?_⟩
+  intro n r hv
+  simp [valLoop, h5, h6, hv]
+
+/-- … and **no stake is counted for more than it is worth**: for a bonded validator with delegator shares `S > 0` and bonded
+tokens `B`, the voting powers `Tally` gives to any voting delegators of it (delegations `ds`, together at most `S` — the
+staking module's invariant) plus the power it leaves to the validator itself never exceed `B` by more than one unit of
+10^-18 per term (the half-even roundings of `Quo`) -/
+theorem tally_power_bounded_by_stake (v : Val) (hS : 0 < v.shares) (ds : List Nat) (hsum : sumNat ds ≤ v.shares) :
+    ∃ pv, valPower v (sumNat ds) = some pv ∧ (∀ d ∈ ds, delPower v d = some (quoVal (d * v.bonded) v.shares)) ∧
+      sumNat (ds.map (fun d => quoVal (d * v.bonded) v.shares)) + pv ≤ DEC * v.bonded + ds.length + 1 := by
+  have h2 : tallyValidatorPower = "sharesAfterDeductions.MulInt(val.BondedTokens).Quo(val.DelegatorShares)" := rfl
+  have h3 : tallySharesAfterDeductions = "val.DelegatorShares.Sub(val.DelegatorDeductions)" := rfl
+  have h4 : tallyDelegatorPower = "delegation.GetShares().MulInt(val.BondedTokens).Quo(val.DelegatorShares)" := rfl
+  refine ⟨quoVal ((v.shares - sumNat ds) * v.bonded) v.shares, ?_, ?_, stake_counted_once v.bonded v.shares hS ds hsum⟩
+  · simp [valPower, h2, h3, decQuo_eq_quoVal hS]
+  · intro d _
+    simp [delPower, h4, decQuo_eq_quoVal hS]
+
 /-! ## multi-message proposals: one type, and the community-pool minimum over the SUM of the spends -/
 
 /-- **every stored proposal, after every history, has messages of one type** (they passed `checkProposalMsgs` at
